@@ -587,6 +587,12 @@ def r11_relurl_leaves_relative_links(ctx, rep):
     c09._relurl_only_rewrites_absolute_paths(ctx, rep)
 
 
+def r12_names_compared_case_insensitively(ctx, rep):
+    """names are lower-cased on both sides of a comparison (shared with C16.R11)"""
+    from . import c16
+    c16.r11_names_compared_case_insensitively(ctx, rep)
+
+
 RULES = [
     RuleSpec("C11.R6", r6_item_anchors, "[[owner:item]] targets: item anchors exist on the owner's page (shared with C09.R8)", floor=16),
     RuleSpec("C11.R1", r1_kinds, "documented kinds are the implemented kinds", floor=45),
@@ -599,4 +605,5 @@ RULES = [
     RuleSpec("C11.R9", r9_memo, "no cached link element outlives the page it was made for (shared with C17.R7)", floor=1),
     RuleSpec("C11.R10", r10_plain_references_survive_relurl, "an unresolved reference stays harmless in every filter it passes", floor=2),
     RuleSpec("C11.R11", r11_relurl_leaves_relative_links, "relurl rewrites absolute paths only (shared with C09.R3)", floor=1),
+    RuleSpec("C11.R12", r12_names_compared_case_insensitively, "names are lower-cased on both sides of a comparison (shared with C16.R11)", floor=1),
 ]
